@@ -11,7 +11,7 @@ from .core import AnchorError, Unsupported
 from .e1_srcmodel import dotted, walk_no_nested
 from .e2_eval import is_unknown
 from .sem import split_call, place
-from .c18_sem import (explore, app, head, same, vkey, strip, find, walk, contains, const_of, sym_of, norm_atom, depends_on_sym)
+from .c18_sem import (explore, app, head, same, vkey, unfn_m, strip, find, walk, contains, const_of, sym_of, norm_atom, depends_on_sym)
 
 N2P = "pyyeti/nastran/n2p.py"
 OP2 = "pyyeti/nastran/op2.py"
@@ -465,8 +465,8 @@ def r2_mksetpv(ctx):
     for p, A, B, mA, mB in info:
         roles.append((p, role(mA, minor), role(mB, major), role(mA, major), role(mB, minor)))
     ok = all(rn is not None and rj is not None for _, rn, rj, _, _ in roles)
-    okw = ok and all(same(rn[1], rj[1]) for _, rn, rj, _, _ in roles)
-    ctx.check(okw or not ok, "mksetpv tests major and minor membership on the same USET words", fn,
+    okw = ok and all(same(rn[1], rj[1]) and depends_on_sym(rn[1], args[0]) for _, rn, rj, _, _ in roles)
+    ctx.check(okw or not ok, "mksetpv tests major and minor membership on the same USET words (taken from the table)", fn,
               None if okw or not ok else [(_show(rn[1]), _show(rj[1])) for _, rn, rj, _, _ in roles][:1])
     # string arguments resolved through mkusetmask, integer masks used as they are
     for nm, k in ((major, 2), (minor, 1)):
@@ -502,7 +502,10 @@ def r2_mksetpv(ctx):
             continue
         if d is None:
             other = [node for c, _, node in p.atoms() if c is not None and (contains(c, A) or contains(c, B))]
-            if other:
+            if p.decided(F.fn("any", _binop_and(F.fn("invert", A), B))) is not None:
+                refusal_ok = False
+                detail = {"regime": p.describe(), "found": "the test is on major-not-minor DOF; a minor set outside the major set is not refused"}
+            elif other:
                 undecidable = (p, [(None, None, other[0])])
             else:
                 refusal_ok = False
@@ -585,15 +588,34 @@ def _clamp_kind(x, ss, arrays):
         return bool(a) and ((same(a[0], ss) and is_size(a[1])) or (same(a[1], ss) and is_size(a[0])))
 
     a = app(x, "upd")
-    if a and same(a[0], ss) and eq_size(a[1]):
-        # the cells where the index == size get  size + c
+    if a and same(a[0], ss):
+        # which cells the store reaches: the insertion index lies in 0..size, so only `== size` (or `>= size`) matters
+        canon, pol, _ = norm_atom(a[1])
+        covers = None
+        if canon is not None and eq_size(canon):
+            covers = pol                                   # == size  /  != size
+        g = app(canon, "cmp:Gt") if canon is not None else None
+        if g and same(g[0], ss) and is_size(g[1]):
+            covers = False                                 # > size never happens, <= size is every cell: not a clamp
+        if g and is_size(g[0]) and same(g[1], ss):
+            covers = not pol                               # size > index: the other cells;  index >= size: the == size cells
+        if covers is None:
+            return None
+        if not covers:
+            return "raw"            # the == size cells are left as they are
+        # the cells where the index == size get  size + c  (or the constant k)
         c = const_of(a[2] - F.fn("idx", ss, a[1]))
         if c is None:
             c = next((const_of(a[2] - n) for n in sizes if const_of(a[2] - n) is not None), None)
-        if c == -1:
-            return "clamped"
+        if c in (-1, -2):
+            return "clamped"        # size-1, or size-2 (size-2 is -1 for one key: also the last one)
         if c is not None and c >= 0:
             return "raw"            # still >= size: out of range
+        k = const_of(a[2])
+        if k in (0, -1):
+            return "clamped"        # first / last position: in range whenever there is a key at all
+        if k is not None and k >= 1:
+            return "raw"            # out of range for a table of k keys or fewer
         return None
     c = _is_call(x, ("minimum", "fmin"), ["x1", "x2"])
     if c and ((same(c.get("x1"), ss) and is_last(c.get("x2"))) or (same(c.get("x2"), ss) and is_last(c.get("x1")))):
@@ -815,7 +837,8 @@ def _r3_mkdofpv(ctx):
     rows = []
     for p in reach:
         L = looks[id(p)]
-        ds = find(L.N, lambda x: bool(app(x, "idx")) and same(x, _col(app(x, "idx")[0], 0)))
+        # the array whose columns the requested keys are built from (an element of it is read with a 2-D index)
+        ds = find(L.N, lambda x: bool(app(x, "idx")) and head(app(x, "idx")[1]) == "tuple")
         D = app(ds[0], "idx")[0] if ds else None
         rows.append((p, L, D))
     # classify what each regime does after the look-up
@@ -862,10 +885,13 @@ def _r3_mkdofpv(ctx):
     nasset = fn.args.args[1].arg
     for p, L, D in rows:
         H = strip(L.H)
-        tab = find(H, lambda x: bool(app(x, "idx")) and same(x, _col(app(x, "idx")[0], 0)))
+        tab = find(H, lambda x: bool(app(x, "idx")) and head(app(x, "idx")[1]) == "tuple")
         if tab:
             U = app(tab[0], "idx")[0]
             good = same(H, _col(U, 0) * 10 + _col(U, 1))
+            # a plain array table has no set information: its rows are the p-set, any other request is refused
+            if not (same(U, uset) and p.decided(F.fn("cmp:Eq", F.sym(nasset), F.sym("'p'"))) is True):
+                part_ok, part_bad = False, (p, U)
         else:
             lv = find(H, lambda x: (_is_call(x, ("get_level_values",), ["self", "level"]) or {}).get("level") is not None)
             ids = [x for x in lv if sym_of(_is_call(x, ("get_level_values",), ["self", "level"])["level"]) == "'id'"]
@@ -896,7 +922,7 @@ def _r3_mkdofpv(ctx):
     ctx.check(okN and okH, "mkdofpv: table keys and requested keys are both id*10 + component", fn,
               None if okN and okH else {"requested": _show(rows[0][1].N), "table": _show(rows[0][1].H)})
     ctx.check(part_ok and part_seen, "mkdofpv: a DataFrame table is restricted to the requested set by mksetpv(uset, 'p', nasset) before the look-up "
-                                     "(positions are positions within that set)", fn,
+                                     "(positions are positions within that set); an array table is searched only for nasset == 'p'", fn,
               None if part_ok and part_seen else ({"regime": part_bad[0].describe(), "table": _show(part_bad[1])} if part_bad else "no partition found"))
     # the request is expanded (ids -> 6 DOF, 123456 -> digits) before the keys are built
     par = fn.args.args[2].arg
@@ -926,6 +952,36 @@ def _r3_mat_intersect(ctx):
     fn, paths, reach = _lookup_paths(ctx, LOCATE, "mat_intersect")
     cache = {}
     looks = {id(p): _analyse_lookup(p, cache) for p in reach}
+    # the keys that are searched and re-checked are byte views of both inputs in ONE common, lossless type
+    same_ok, common_ok, det = True, True, None
+    for p in reach:
+        L = looks[id(p)]
+        kh, kn = _key_view(L.H), _key_view(L.N)
+        if kh is None or kn is None:
+            ctx.error("mat_intersect: search keys not recognised as converted views of the inputs", L.node, {"haystack": _show(L.H), "needles": _show(L.N)})
+            return
+        (hraw, th), (nraw, tn) = kh, kn
+        if not same(th, tn):
+            same_ok = False
+            det = det or sorted([_show(th), _show(tn)])
+            continue
+        c = split_call(th)
+        good = False
+        if c and c[0].split(".")[-1] in ("result_type", "promote_types") and len(c[1]) == 2 and not c[2]:
+            want = [(F.fn("attr:dtype", hraw), F.fn("attr:dtype", nraw)), (hraw, nraw)]
+            good = any((same(c[1][0], a) and same(c[1][1], b)) or (same(c[1][0], b) and same(c[1][1], a)) for a, b in want)
+        elif not (c or same(th, F.fn("attr:dtype", hraw)) or same(th, F.fn("attr:dtype", nraw))):
+            ctx.error("mat_intersect: common dtype of the search keys not recognised", L.node, _show(th))
+            return
+        if not good:
+            common_ok = False
+            det = det or _show(th)
+    ctx.check(same_ok, "mat_intersect: haystack and needles are viewed in the same dtype before the search and the re-check", fn, None if same_ok else det)
+    if same_ok:
+        ctx.check(common_ok, "mat_intersect: that dtype is np.result_type of both inputs (a conversion that is exact for both; casting the "
+                             "needles to the haystack type would make 3.9 match 3 and survive the re-check)", fn, None if common_ok else det)
+    if not (same_ok and common_ok):
+        return
     chain = _report_lookup(ctx, "mat_intersect", list(looks.values()))
     d1, d2 = fn.args.args[0].arg, fn.args.args[1].arg
     if chain:
@@ -970,55 +1026,73 @@ def _r3_mat_intersect(ctx):
         ctx.check(trim_ok, "mat_intersect: haystack positions are trimmed by the same match vector", fn, None if trim_ok else det)
         ctx.check(order_ok, "mat_intersect: the first output indexes D1 and the second D2 whichever input is searched (D1[pv1] == D2[pv2])", fn,
                   None if order_ok else det)
-    # the keys that are searched and re-checked are byte views of both inputs in ONE common, lossless type
-    same_ok, common_ok, det = True, True, None
-    for p in reach:
-        L = looks[id(p)]
-        kh, kn = _key_view(L.H), _key_view(L.N)
-        if kh is None or kn is None:
-            ctx.error("mat_intersect: search keys not recognised as converted views of the inputs", L.node, {"haystack": _show(L.H), "needles": _show(L.N)})
-            return
-        (hraw, th), (nraw, tn) = kh, kn
-        if not same(th, tn):
-            same_ok = False
-            det = det or sorted([_show(th), _show(tn)])
-            continue
-        c = split_call(th)
-        good = False
-        if c and c[0].split(".")[-1] in ("result_type", "promote_types") and len(c[1]) == 2 and not c[2]:
-            want = [(F.fn("attr:dtype", hraw), F.fn("attr:dtype", nraw)), (hraw, nraw)]
-            good = any((same(c[1][0], a) and same(c[1][1], b)) or (same(c[1][0], b) and same(c[1][1], a)) for a, b in want)
-        elif not (c or same(th, F.fn("attr:dtype", hraw)) or same(th, F.fn("attr:dtype", nraw))):
-            ctx.error("mat_intersect: common dtype of the search keys not recognised", L.node, _show(th))
-            return
-        if not good:
-            common_ok = False
-            det = det or _show(th)
-    ctx.check(same_ok, "mat_intersect: haystack and needles are viewed in the same dtype before the search and the re-check", fn, None if same_ok else det)
-    if same_ok:
-        ctx.check(common_ok, "mat_intersect: that dtype is np.result_type of both inputs (a conversion that is exact for both; casting the "
-                             "needles to the haystack type would make 3.9 match 3 and survive the re-check)", fn, None if common_ok else det)
+    # leaving without a search is right only when no row of D1 can equal a row of D2: different numbers of columns
+    early = [p for p in paths if p.returned and not p.sites]
+    bad, odd = None, None
+    for p in early:
+        cols = None
+        for c, d, _ in p.atoms():
+            a = app(c, "cmp:Eq") if c is not None else None
+            if a and all(bool(app(x, "idx")) and head(app(x, "idx")[0]) == "attr:shape" and const_of(app(x, "idx")[1]) == 1 for x in a) \
+                    and {depends_on_sym(x, d1) for x in a} == {True, False} and {depends_on_sym(x, d2) for x in a} == {True, False}:
+                cols = d
+        empty = isinstance(p.ret, tuple) and len(p.ret) == 2 and all(x == () for x in p.ret)
+        if cols is True or (cols is False and not empty):
+            bad = p
+        elif cols is None:
+            odd = p
+    if bad is None and odd is not None:
+        ctx.error("mat_intersect: a regime returns without the look-up for a reason this rule does not know", odd.ret_node, odd.describe())
+    else:
+        ctx.check(bad is None, "mat_intersect: the empty result without a search is returned only when the column counts differ", (bad.ret_node if bad else None) or fn,
+                  None if bad is None else {"regime": bad.describe(), "returned": _show(bad.ret)})
 
 
 # ------------------------------------------------------------------------------------------------------------------
-def _exceeds(c):
-    """(X, bound, negated) if the test value says `some element of X > bound` (negated: `no element ...`)"""
-    g = app(c, "cmp:Gt")
-    if g:
-        m = _is_call(g[0], ("max", "amax"), ["a"])
-        if m and m.get("a") is not None and const_of(g[1]) is not None:
-            return m["a"], const_of(g[1]), False
-    for red, neg in (("any", False), ("all", True)):
+_FLIP = {"Gt": "Lt", "Lt": "Gt", "GtE": "LtE", "LtE": "GtE", "Eq": "Eq", "NotEq": "NotEq"}
+
+
+def _elem_test(c):
+    """(reduction, X, op, constant) for a test value that compares the elements (any / all) or the maximum of an array X with a constant"""
+    for red in ("any", "all"):
         a = app(c, red)
-        if not a:
-            continue
-        m = a[0]
-        for nm, swap in ((("cmp:Gt", False), ("cmp:Lt", True)) if not neg else (("cmp:LtE", False), ("cmp:GtE", True))):
-            x = app(m, nm)
-            if x:
-                arr, b = (x[1], x[0]) if swap else (x[0], x[1])
-                if const_of(b) is not None:
-                    return arr, const_of(b), neg
+        if a:
+            u = unfn_m(a[0])
+            if u and u[0].startswith("cmp:") and u[0][4:] in _FLIP and len(u[1]) == 2:
+                x, y = u[1]
+                if const_of(y) is not None and const_of(x) is None:
+                    return red, x, u[0][4:], const_of(y)
+                if const_of(x) is not None and const_of(y) is None:
+                    return red, y, _FLIP[u[0][4:]], const_of(x)
+            return None
+    u = unfn_m(c)
+    if u and u[0].startswith("cmp:") and u[0][4:] in _FLIP and len(u[1]) == 2:
+        x, y = u[1]
+        op = u[0][4:]
+        if const_of(x) is not None:
+            x, y, op = y, x, _FLIP[op]
+        m = _is_call(x, ("max", "amax"), ["a"])
+        if m and m.get("a") is not None and const_of(y) is not None:
+            return "max", m["a"], op, const_of(y)
+    return None
+
+
+def _exceeds(c):
+    """(X, bound, negated) if the test value says `some element of X > bound` (negated: `no element ...`); X holds integers"""
+    e = _elem_test(c)
+    if e is None:
+        return None
+    red, x, op, k = e
+    if red in ("any", "max"):
+        if op == "Gt":
+            return x, k, False
+        if op == "GtE":
+            return x, k - 1, False
+    if red == "all":
+        if op == "LtE":
+            return x, k, True
+        if op == "Lt":
+            return x, k - 1, True
     return None
 
 
@@ -1066,7 +1140,7 @@ def r4_expanddof(ctx):
         if t is False:
             continue
         # a test on the expanded value that is not an understood `some element of X > c` test: the rule cannot tell what it refuses
-        looks_at = [c for c, d, _ in p.atoms() if c is not None and find(c, lambda x: head(x) == "call:str") and _exceeds(c) is None]
+        looks_at = [c for c, d, _ in p.atoms() if c is not None and find(c, lambda x: head(x) == "call:str") and _elem_test(c) is None]
         if t is None and looks_at:
             unclear = (p, looks_at[0])
         else:
